@@ -116,6 +116,19 @@ func scenario(seed int64, k int, res *l2.Result) {
 		ok, stuck, last = b.AwaitTip(nt, deadline)
 		if !reorgBelowCheckpoint(plan, f.Height) {
 			good = phase("reorg", nt.Height, ok, stuck, last)
+			// Back again: the branch the client just left is extended until it
+			// is the better chain once more (peers serve its old blocks again,
+			// followed by the new ones).
+			if good && k%3 != 2 {
+				back := w.G.Extend(tip, int(nt.Height-tip.Height)+1+int(plan.Seed&1), 0)
+				nt2 := back[len(back)-1]
+				if nt2.CumWork.Cmp(nt.CumWork) > 0 {
+					b.SetHonestTip(nt2, plan.Announce)
+					ok, stuck, last = b.AwaitTip(nt2, deadline)
+					good = phase("reorg-return", nt2.Height, ok, stuck, last)
+					res.Count("reorgs_back_to_an_abandoned_branch", 1)
+				}
+			}
 		}
 	}
 	// Stability: with the honest chain at rest, a RESTARTED client (its
